@@ -822,6 +822,18 @@ def binop(I, op, a, b, node):
 
 
 import operator as _op
+
+
+def _op_model(fn, astop):
+    @model(fn)
+    def m(I, args, kwargs, node, astop=astop):
+        return binop(I, astop(), args[0], args[1], node)
+    return m
+
+
+for _fn, _astop in ((_op.or_, ast.BitOr), (_op.and_, ast.BitAnd), (_op.add, ast.Add), (_op.sub, ast.Sub),
+                    (_op.mul, ast.Mult)):
+    _op_model(_fn, _astop)
 _HOST_BINOPS = {ast.Add: _op.add, ast.Sub: _op.sub, ast.Mult: _op.mul, ast.FloorDiv: _op.floordiv,
                 ast.Mod: _op.mod, ast.BitOr: _op.or_, ast.BitAnd: _op.and_, ast.Div: _op.truediv,
                 ast.Pow: _op.pow, ast.BitXor: _op.xor, ast.LShift: _op.lshift, ast.RShift: _op.rshift}
@@ -1517,6 +1529,57 @@ def f2_variant(clo):
     return None
 
 
+def f2_semantic_variant(I, fam, repl, node):
+    """The replacement (a function, or a template string) decided by its *meaning*: it is interpreted on a symbolic
+    match (group 1 = any string, group 2 = one character of the class / a start literal, or empty when the pattern
+    can match at the end), and the result is compared with the two known run-doubling functions by a validity
+    query under the current path condition:
+        make     g1 g1 '\\' g2                       windows   g1 g1 ('\\' g2  if g2 is not empty  else '')"""
+    from specs.stubs import MatchStub
+    g1, g2 = fresh_sym('m_group1', 'str'), fresh_sym('m_group2', 'str')
+    n2 = z3.Length(g2.e)
+    dom = [z3.And(n2 == 1, T.OR(fam.cls.contains(g2.e[0]), *[g2.e[0] == c for c in fam.start_lits]))]
+    if fam.at_end:
+        dom.append(n2 == 0)
+    I.assume(z3.Or(*dom))
+    if isinstance(repl, str):
+        tmpl = RX.parse_template(repl)
+        if tmpl is None:
+            return None
+        parts = []
+        for k, x in tmpl:
+            if k == 'lit':
+                parts.append(T.lit(x))
+            elif x == 1:
+                parts.append(g1.e)
+            elif x == 2:
+                parts.append(g2.e)
+            else:
+                return None
+        res = T.cat(*parts) if parts else T.empty()
+    else:
+        m = Obj(MatchStub, {'_groups': (Sym(T.cat(g1.e, g2.e), 'str'), g1, g2)})
+        r = I.call(repl, [m], {}, node)
+        if isinstance(r, str):
+            res = T.lit(r)
+        elif isinstance(r, Sym) and r.ty == 'str':
+            res = r.e
+        else:
+            return None
+    bs = T.lit('\\')
+    want = {'make': T.cat(g1.e, g1.e, bs, g2.e),
+            'windows': z3.If(n2 > 0, T.cat(g1.e, g1.e, bs, g2.e), T.cat(g1.e, g1.e))}
+    for name in (('windows', 'make') if fam.at_end else ('make', 'windows')):
+        sv = z3.Solver()
+        sv.set('timeout', 5000)
+        for c in I.pc:
+            sv.add(c)
+        sv.add(res != want[name])
+        if sv.check() == z3.unsat:
+            return name
+    return None
+
+
 _F2_FOLDS = {}
 
 
@@ -1637,10 +1700,12 @@ def re_call(I, name, pattern, flags, args, kwargs, node):
             f = f3_fold(fam.sep, tuple(fam.comp_classes), tmpl[1][1])
             st, out = f.run(f.init, sym_str(s))
             return mk_str(T.cat(out, f.flush(st)))
-        if isinstance(fam, RX.F2) and isinstance(repl, Closure):
-            variant = f2_variant(repl)
+        if isinstance(fam, RX.F2) and isinstance(repl, (Closure, str)):
+            variant = f2_variant(repl) if isinstance(repl, Closure) else None
             if variant is None:
-                raise _oos('re.sub(%r): replacement function does not match a known template' % pattern, node)
+                variant = f2_semantic_variant(I, fam, repl, node)
+            if variant is None:
+                raise _oos('re.sub(%r): the replacement is neither of the two known run-doubling functions' % pattern, node)
             f = f2_fold(fam, variant)
             st, out = f.run((0, 1), sym_str(s))
             tail = f.flush(st)
